@@ -194,6 +194,7 @@ func runC05(c *Ctx) {
 	}
 	r.Floor("single-conversion", n, 20, "Location sinks in the tokenizer")
 	runC05Start(c, conv)
+	runC05Lookahead(c)
 	// one-based
 	be := newBoundsEngine(p)
 	for fn := range conv {
@@ -595,4 +596,170 @@ func runC05Start(c *Ctx, conv map[*ssa.Function]bool) {
 		}
 	}
 	r.Floor("start-at-token", n, 2, "token Start stores with a cursor snapshot")
+}
+
+// ---- lookahead-restore ---------------------------------------------------------------------
+
+// isCursorSnapshot: v is a copy of the tokenizer cursor (t.pos or t.pos.Clone()).
+func isCursorSnapshot(v ssa.Value) bool {
+	switch x := v.(type) {
+	case *ssa.UnOp:
+		if fa, ok := x.X.(*ssa.FieldAddr); ok && x.Op == token.MUL && fieldKey(fa.X, fa.Field) == "Tokenizer.pos" {
+			return true
+		}
+	case *ssa.Call:
+		if f := x.Call.StaticCallee(); f != nil && f.Name() == "Clone" && len(x.Call.Args) == 1 {
+			return isCursorSnapshot(x.Call.Args[0])
+		}
+	}
+	return false
+}
+
+// definedAfter: is v (or something it is computed from) produced by an instruction that runs after `at`?
+func definedAfter(v ssa.Value, at ssa.Instruction, depth int, seen map[ssa.Value]bool) bool {
+	if depth > 6 || seen[v] {
+		return false
+	}
+	seen[v] = true
+	in, ok := v.(ssa.Instruction)
+	if !ok {
+		return false
+	}
+	if in.Block() == at.Block() {
+		after := false
+		for _, x := range in.Block().Instrs {
+			if x == at {
+				after = true
+				continue
+			}
+			if x == in && after {
+				return true
+			}
+		}
+	} else if at.Block().Dominates(in.Block()) {
+		return true
+	}
+	var ops []*ssa.Value
+	for _, o := range in.Operands(ops) {
+		if *o != nil && definedAfter(*o, at, depth+1, seen) {
+			return true
+		}
+	}
+	return false
+}
+
+// returnedTokenParts: the values stored into the Token composite returned by ret (or the returned value itself).
+func returnedTokenParts(ret *ssa.Return) []ssa.Value {
+	if len(ret.Results) == 0 {
+		return nil
+	}
+	v := retOperand(ret, 0)
+	var out []ssa.Value
+	if u, ok := v.(*ssa.UnOp); ok {
+		if a, ok := u.X.(*ssa.Alloc); ok {
+			for _, ref := range core.Referrers(a) {
+				if fa, ok := ref.(*ssa.FieldAddr); ok {
+					for _, r2 := range core.Referrers(fa) {
+						if st, ok := r2.(*ssa.Store); ok && st.Addr == ssa.Value(fa) {
+							out = append(out, st.Val)
+						}
+					}
+				}
+			}
+			return out
+		}
+	}
+	return []ssa.Value{v}
+}
+
+func runC05Lookahead(c *Ctx) {
+	r, p := c.R, c.P
+	r.Rule("lookahead-restore", "a reader that snapshots the cursor to look ahead (and restores it somewhere) restores it on every path to a return whose token is built only from what was read before the snapshot; otherwise the token's End (and the next token's Start) lies after text that does not belong to it")
+	n := 0
+	for _, fn := range p.SrcFuncs("pkg/sql/tokenizer") {
+		seq := 0
+		for _, b := range fn.Blocks {
+			for _, in := range b.Instrs {
+				snap, ok := in.(ssa.Value)
+				if !ok || !isCursorSnapshot(snap) {
+					continue
+				}
+				if c, isCall := snap.(*ssa.Call); !isCall {
+					// a plain load that only feeds a Clone() is the Clone's business
+					feedsClone := false
+					for _, ref := range core.Referrers(snap) {
+						if rc, ok := ref.(*ssa.Call); ok && isCursorSnapshot(rc) {
+							feedsClone = true
+						}
+					}
+					if feedsClone {
+						continue
+					}
+					_ = c
+				}
+				// restores: stores of the snapshot back into the cursor
+				restores := map[ssa.Instruction]bool{}
+				for _, ref := range core.Referrers(snap) {
+					if st, ok := ref.(*ssa.Store); ok && st.Val == snap {
+						if fa, ok := st.Addr.(*ssa.FieldAddr); ok && fieldKey(fa.X, fa.Field) == "Tokenizer.pos" {
+							restores[st] = true
+						}
+					}
+				}
+				if len(restores) == 0 {
+					continue // a start-of-token snapshot, not a lookahead
+				}
+				seq++
+				n++
+				key := core.FnName(fn) + sprintf("|snapshot#%d", seq)
+				// walk forward from the snapshot; stop at restores; a reached return must be a commit
+				seen := map[*ssa.BasicBlock]bool{}
+				var bad *ssa.Return
+				var walk func(bb *ssa.BasicBlock, from int)
+				walk = func(bb *ssa.BasicBlock, from int) {
+					for i := from; i < len(bb.Instrs) && bad == nil; i++ {
+						x := bb.Instrs[i]
+						if restores[x] {
+							return
+						}
+						if ret, ok := x.(*ssa.Return); ok {
+							commit := false
+							for _, part := range returnedTokenParts(ret) {
+								if definedAfter(part, in, 0, map[ssa.Value]bool{}) {
+									commit = true
+								}
+							}
+							// an error return is a commit too (the scan is abandoned)
+							if len(ret.Results) > 1 && !core.IsNilConst(retOperand(ret, len(ret.Results)-1)) {
+								commit = true
+							}
+							if !commit {
+								bad = ret
+							}
+							return
+						}
+					}
+					for _, s := range bb.Succs {
+						if !seen[s] && bad == nil {
+							seen[s] = true
+							walk(s, 0)
+						}
+					}
+				}
+				start := 0
+				for i, x := range b.Instrs {
+					if x == in {
+						start = i + 1
+					}
+				}
+				walk(b, start)
+				if bad != nil {
+					r.Violate("lookahead-restore", key, p.Pos(bad.Pos()), "this return yields a token built from text read before the look-ahead snapshot at "+p.Pos(in.Pos())+", but a path from the snapshot reaches it without restoring the cursor: the token's End includes the text skipped while looking ahead")
+				} else {
+					r.OK("lookahead-restore", key, p.Pos(in.Pos()), sprintf("%d restore site(s); every non-committing return is behind one", len(restores)))
+				}
+			}
+		}
+	}
+	r.Floor("lookahead-restore", n, 1, "look-ahead snapshots in the tokenizer")
 }
